@@ -161,13 +161,13 @@ theorem outdir_injective {a b p : List Char} (ha : sanitize a = some p) (hb : sa
   rw [← sanitize_some ha, ← sanitize_some hb]
 
 theorem sanitize_none_iff (a : List Char) :
-    sanitize a = none ↔ ('\x00' ∈ a ∨ '/' ∈ a ∨ a = ['.'] ∨ a = ['.', '.']) := by
+    sanitize a = none ↔ ('\x00' ∈ a ∨ '/' ∈ a ∨ a = [] ∨ a = ['.'] ∨ a = ['.', '.']) := by
   unfold sanitize
   by_cases h1 : '\x00' ∈ a
   · simp [h1]
   · by_cases h2 : '/' ∈ a
     · simp [h1, h2]
-    · by_cases h3 : a = ['.'] ∨ a = ['.', '.']
+    · by_cases h3 : a = [] ∨ a = ['.'] ∨ a = ['.', '.']
       · simp [h1, h2, h3]
       · simp only [h1, h2, h3, if_false, false_or]; simp
 
